@@ -2,14 +2,14 @@
    Property theorems only.  Model: Model/Condorcet.v; proofs: Proofs/Condorcet_proofs.v.
 
    Proved for every pairwise dictionary (distinct keys, non-negative counts, absent
-   pair = 0): Copeland (raw and second-order), minimax (winning votes, margins) and
-   Schulze (every iteration order of the candidate set) elect the Condorcet winner
-   alone; minimax and Schulze drop nobody; the Schulze table is the table of strongest
-   beat-paths and the Schulze ranking does not depend on the iteration order.
-   The remaining clauses of the property (ranked pairs / Kemeny Condorcet-winner
-   consistency, Smith-efficiency of the others, nobody dropped for Copeland second
-   order) are stated below as full statements and are decided per case by the
-   verified-model correspondence plus brute-force references in the check
+   pair = 0): Copeland (raw and second-order), minimax (winning votes, margins), Schulze (every
+   iteration order of the candidate set), ranked pairs and Kemeny-Young elect the Condorcet winner
+   alone (C05_cw_full: the whole clause); defining computations of Copeland, Schulze (the table of
+   strongest beat-paths, ranking independent of the iteration order), Kemeny-Young (common first
+   places of the best permutations) and ranked pairs (locked total order); nobody dropped for
+   minimax, Schulze, ranked pairs, Kemeny-Young.  The remaining clauses (Smith-efficiency of
+   ranked pairs / Kemeny / Schulze, nobody dropped for Copeland second order, the run-off hybrids)
+   are decided per case by the verified-model correspondence plus brute-force references in the check
    (C05 evidence: "partial"). *)
 From Coq Require Import ZArith List Arith.
 From VL Require Import Prelude.PyDict Model.GetNBest Model.Condorcet Proofs.Condorcet_proofs Proofs.CopelandMono_proofs Proofs.SmithCopeland_proofs Proofs.Minimax_proofs Proofs.Schulze_proofs.
@@ -136,6 +136,127 @@ Example C05_schulze_example :
     = [Cand 1%positive; Cand 2%positive; Cand 3%positive] /\
   schulze mono_v (candidates mono_v) 5 = [Cand 3%positive; Cand 2%positive; Cand 5%positive; Cand 1%positive; Cand 4%positive].
 Proof. vm_compute. split; reflexivity. Qed.
+(* ---------------------------------------------------------------- Kemeny-Young and ranked pairs *)
+From Coq Require Import Permutation Sorted Lia.
+From VL Require Import Proofs.Kemeny_proofs Proofs.RankedPairs_proofs.
+
+(* Kemeny-Young, Condorcet winner (non-negative counts): the winner heads every best ranking because moving it to the
+   front gains votes, all best rankings therefore agree on the first place, and the evaluator answers with it. *)
+Theorem C05_cw_kemeny : forall (v : pvotes) c,
+  (forall p n, In (p, n) v -> 0 <= n) -> is_cw v c -> kemeny v 1 = CR_ok [Cand c].
+Proof. intros v c Hnn. apply kemeny_elects_cw, pget0_nn, Hnn. Qed.
+
+(* defining computation: an answer is the first n places of a ranking of all candidates with the greatest Kemeny score,
+   and ALL rankings with the greatest score have the same first n places ... *)
+Theorem C05_kemeny_defining : forall (v : pvotes) n r, kemeny v n = CR_ok r ->
+  exists p, Permutation p (candidates v) /\ r = map Cand (firstn n p) /\
+    (forall q, Permutation q (candidates v) -> kemeny_score v q <= kemeny_score v p) /\
+    (forall q, kemeny_max v q -> firstn n q = firstn n p).
+Proof.
+  intros v n r H. destruct (kemeny_defining v n r H) as (p & (Hp & Hge) & _ & Hr & Hall). exists p. tauto.
+Qed.
+
+(* ... conversely the evaluator answers whenever the best rankings agree on the first n places, and it refuses
+   (NotImplementedError of Tie.tie_rankings) exactly when two best rankings differ within the first n places
+   (counts non-negative: the scan starts from best_score = 0) *)
+Theorem C05_kemeny_answers : forall (v : pvotes) n p, (forall q m, In (q, m) v -> 0 <= m) ->
+  kemeny_max v p -> (forall q, kemeny_max v q -> firstn n q = firstn n p) ->
+  kemeny v n = CR_ok (map Cand (firstn n p)).
+Proof.
+  intros v n p Hnn Hb Hall. apply kemeny_complete; [exact Hb|apply kemeny_score_nonneg, pget0_nn, Hnn|exact Hall].
+Qed.
+
+Theorem C05_kemeny_refusal : forall (v : pvotes) n, (forall p m, In (p, m) v -> 0 <= m) ->
+  (kemeny v n = CR_nie <-> exists p q, kemeny_max v p /\ kemeny_max v q /\ firstn n p <> firstn n q) /\
+  (kemeny v n = CR_nie \/ exists r, kemeny v n = CR_ok r).
+Proof.
+  intros v n Hnn. split; [apply kemeny_refuses_iff, pget0_nn, Hnn|].
+  destruct (kemeny_cases v n) as [(p & _ & Hp)|H]; [right; eexists; exact Hp|left; exact H].
+Qed.
+
+Theorem C05_kemeny_nobody_dropped : forall (v : pvotes) r x,
+  kemeny v (length (candidates v)) = CR_ok r -> In x (candidates v) -> In (Cand x) r.
+Proof. exact kemeny_nobody_dropped. Qed.
+
+(* the enumeration the evaluator scans is exactly the set of rankings of the candidates, each listed once *)
+Theorem C05_permutations : forall (l p : list C),
+  (In p (permutations l) <-> Permutation p l) /\ (NoDup l -> NoDup (permutations l)).
+Proof. intros l p. split; [apply permutations_spec|apply permutations_NoDup]. Qed.
+
+(* the dictionary on which the unrepaired evaluator refused although 1 is the Condorcet winner (2 and 3 tie below it):
+   one seat is now answered, two or three seats are still refused because the best rankings 1>2>3 and 1>3>2 differ there *)
+Definition C05_kemeny_tied_tail : pvotes :=
+  [((1%positive, 2%positive), 3); ((2%positive, 1%positive), 1);
+   ((1%positive, 3%positive), 3); ((3%positive, 1%positive), 1);
+   ((2%positive, 3%positive), 2); ((3%positive, 2%positive), 2)].
+Example C05_kemeny_tied_tail_example :
+  kemeny C05_kemeny_tied_tail 1 = CR_ok [Cand 1%positive] /\
+  kemeny C05_kemeny_tied_tail 2 = CR_nie /\ kemeny C05_kemeny_tied_tail 3 = CR_nie.
+Proof. vm_compute. auto. Qed.
+
+(* Ranked pairs (all three pairwise scorers): the evaluator never refuses; its answer lists ALL candidates along the
+   locked relation, which is a strict total order (every candidate precedes exactly those it is locked over) ... *)
+Theorem C05_ranked_pairs_defining : forall (v : pvotes) s n, (2 <= length (candidates v))%nat ->
+  exists ranking, ranked_pairs s v n = CR_ok (map Cand (firstn n ranking)) /\ Permutation ranking (candidates v) /\
+    StronglySorted (fun a b => In (a, b) (lock_pairs (rp_pairs s v))) ranking.
+Proof. intros v s n H2. exact (ranked_pairs_ranking v s H2 n). Qed.
+
+(* ... where the pairs are taken by descending strength under the scorer and each is locked unless the pairs locked
+   before it already lead from its loser to its winner *)
+Theorem C05_ranked_pairs_lock : forall (v : pvotes) s,
+  StronglySorted (fun p q => sc v s (fst q) (snd q) <= sc v s (fst p) (snd p)) (rp_pairs s v) /\
+  (forall a b, In (a, b) (rp_pairs s v) <-> In a (candidates v) /\ In b (candidates v) /\ a <> b) /\
+  (forall l1 a b l2, rp_pairs s v = l1 ++ (a, b) :: l2 -> a <> b -> ~ In (a, b) l1 -> ~ In (a, b) l2 ->
+     (In (a, b) (lock_pairs (rp_pairs s v)) <-> ~ path (lock_pairs l1) b a)) /\
+  (forall x, ~ path (lock_pairs (rp_pairs s v)) x x).
+Proof.
+  intros v s. split; [apply rp_pairs_sorted|]. split; [apply rp_pairs_in|]. split.
+  - intros l1 a b l2 E. rewrite E. apply lock_spec.
+  - apply lock_acyclic. intros a b H. apply rp_pairs_in in H. tauto.
+Qed.
+
+Theorem C05_cw_ranked_pairs : forall (v : pvotes) s c,
+  (forall p n, In (p, n) v -> 0 <= n) -> (2 <= length (candidates v))%nat ->
+  is_cw v c -> ranked_pairs s v 1 = CR_ok [Cand c].
+Proof. intros v s c Hnn H2. exact (ranked_pairs_elects_cw v s H2 Hnn c). Qed.
+
+Theorem C05_ranked_pairs_nobody_dropped : forall (v : pvotes) s, (2 <= length (candidates v))%nat ->
+  exists r, ranked_pairs s v (length (candidates v)) = CR_ok r /\ forall x, In x (candidates v) -> In (Cand x) r.
+Proof. intros v s H2. exact (ranked_pairs_nobody_dropped v s H2). Qed.
+
+(* every conjunct of C05_cw_full_statement except the Schulze one *)
+Theorem C05_cw_all_but_schulze : forall v c, well_formed v -> is_cw v c ->
+  first_is (minimax WinningVotes v 1) c /\ first_is (minimax Margins v 1) c /\
+  ranked_pairs WinningVotes v 1 = CR_ok [Cand c] /\ ranked_pairs Margins v 1 = CR_ok [Cand c] /\
+  kemeny v 1 = CR_ok [Cand c].
+Proof.
+  intros v c (Hnd & Hnn & H2) Hcw.
+  split; [exists []; apply C05_cw_minimax; auto; discriminate|].
+  split; [exists []; apply C05_cw_minimax; auto; discriminate|].
+  split; [apply C05_cw_ranked_pairs; assumption|]. split; [apply C05_cw_ranked_pairs; assumption|].
+  apply C05_cw_kemeny; assumption.
+Qed.
+
+(* the whole Condorcet-winner clause, as it was stated before it was proved *)
+Theorem C05_cw_full : C05_cw_full_statement.
+Proof.
+  intros v c Hwf Hcw. destruct (C05_cw_full_schulze_minimax v c Hwf Hcw) as (Hs & _).
+  split; [exact Hs|]. exact (C05_cw_all_but_schulze v c Hwf Hcw).
+Qed.
+
+(* non-vacuity: a profile with a Condorcet winner and a unique best ranking *)
+Definition C05_kemeny_example : pvotes :=
+  [((2%positive, 3%positive), 5); ((3%positive, 2%positive), 1);
+   ((1%positive, 3%positive), 3); ((3%positive, 1%positive), 1);
+   ((1%positive, 2%positive), 4); ((2%positive, 1%positive), 2)].
+Example C05_kemeny_example_cw : is_cw C05_kemeny_example 1%positive /\
+  kemeny C05_kemeny_example 1 = CR_ok [Cand 1%positive] /\
+  kemeny C05_kemeny_example 3 = CR_ok [Cand 1%positive; Cand 2%positive; Cand 3%positive] /\
+  ranked_pairs Margins C05_kemeny_example 3 = CR_ok [Cand 1%positive; Cand 2%positive; Cand 3%positive].
+Proof.
+  split; [|vm_compute; auto]. split; [vm_compute; tauto|]. intros x Hx Hne. vm_compute in Hx.
+  destruct Hx as [<-|[<-|[<-|[]]]]; [vm_compute; reflexivity|vm_compute; reflexivity|congruence].
+Qed.
 
 Print Assumptions C05_cw_copeland.
 Print Assumptions C05_copeland_score.
@@ -150,3 +271,15 @@ Print Assumptions C05_schulze_path_win.
 Print Assumptions C05_schulze_order_irrelevant.
 Print Assumptions C05_cw_full_schulze_minimax.
 Print Assumptions C05_nobody_dropped_full_schulze_minimax.
+Print Assumptions C05_cw_kemeny.
+Print Assumptions C05_kemeny_defining.
+Print Assumptions C05_kemeny_answers.
+Print Assumptions C05_kemeny_refusal.
+Print Assumptions C05_kemeny_nobody_dropped.
+Print Assumptions C05_permutations.
+Print Assumptions C05_ranked_pairs_defining.
+Print Assumptions C05_ranked_pairs_lock.
+Print Assumptions C05_cw_ranked_pairs.
+Print Assumptions C05_ranked_pairs_nobody_dropped.
+Print Assumptions C05_cw_all_but_schulze.
+Print Assumptions C05_cw_full.
